@@ -8,7 +8,9 @@ Local Open Scope N_scope.
     probed separately by mutating the returned Files maps). *)
 Inductive ievent :=
 | IPull (img n : N)                 (* the scripted pull function was entered for img; n = global call number *)
-| IResp (c img n : N) (res : bool). (* caller c's Pull(img) returned the result of pull call n (true = package) *)
+| IResp (c img n : N) (res : bool)  (* caller c's Pull(img) returned the result of pull call n (true = package) *)
+| IGone (c img : N).                (* caller c's Pull(img) returned its context's error without a response
+                                       (never on the current code; allowed by the monitor after Cancel c) *)
 
 (** Observation of one run:
     - per step, the events that happened during that (linearised) step; responses in
@@ -59,6 +61,7 @@ Definition ievent_eqb (a b : ievent) : bool :=
   match a, b with
   | IPull i n, IPull i' n' => (i =? i') && (n =? n')
   | IResp c i n r, IResp c' i' n' r' => (c =? c') && (i =? i') && (n =? n') && Bool.eqb r r'
+  | IGone c i, IGone c' i' => (c =? c') && (i =? i')
   | _, _ => false
   end.
 
@@ -68,7 +71,8 @@ Proof. destruct a; cbn; rewrite ?N.eqb_refl, ?eqb_reflx; reflexivity. Qed.
 Lemma ievents_eqb_refl l : list_eqb ievent_eqb l l = true.
 Proof. induction l as [|a l IH]; cbn; [reflexivity|]. now rewrite ievent_eqb_refl, IH. Qed.
 
-Definition step_img (x : step) : N := match x with Req _ i => i | Done i _ => i end.
+Definition step_img (x : step) : N := match x with Req _ i => i | Done i _ => i | Cancel _ => 0 end.
+Definition step_imgs (x : step) : list N := match x with Req _ i => [i] | Done i _ => [i] | Cancel _ => [] end.
 
 Definition recv_count (s : state) (img : N) : N :=
   match inflight s img with Some e => N.of_nat (length (e_recv e)) | None => 0 end.
@@ -88,10 +92,15 @@ Fixpoint nodup_N (l : list N) : list N :=
   | a :: r => a :: filter (fun b => negb (b =? a)) (nodup_N r)
   end.
 
-Definition images (steps : list step) : list N := nodup_N (map step_img steps).
+Definition images (steps : list step) : list N := nodup_N (flat_map step_imgs steps).
 
 Definition ostep_img (o : ostep) : N := match o with Plain x => step_img x | Overlap i _ _ => i end.
-Definition oimages (os : list ostep) : list N := nodup_N (map ostep_img os).
+Definition ostep_imgs (o : ostep) : list N := match o with Plain x => step_imgs x | Overlap i _ _ => [i] end.
+Definition oimages (os : list ostep) : list N := nodup_N (flat_map ostep_imgs os).
+
+(** Receivers registered for the step's image after the step (0 for a cancel step, which has no image). *)
+Definition ostep_count (s : state) (o : ostep) : N :=
+  match o with Plain (Cancel _) => 0 | _ => recv_count s (ostep_img o) end.
 
 Definition is_ipull (e : ievent) : bool := match e with IPull _ _ => true | _ => false end.
 Definition pulls_of (l : list ievent) : list ievent := filter is_ipull l.
@@ -109,7 +118,7 @@ Definition lnext (s : state) (l : lstep) : state := run_from s (expand1 l).
 Fixpoint levs_from (s : state) (ls : list lstep) : list (list ievent) :=
   match ls with [] => [] | l :: r => levents s l :: levs_from (lnext s l) r end.
 Fixpoint lcounts_from (s : state) (ls : list lstep) : list N :=
-  match ls with [] => [] | l :: r => recv_count (lnext s l) (ostep_img (forget l)) :: lcounts_from (lnext s l) r end.
+  match ls with [] => [] | l :: r => ostep_count (lnext s l) (forget l) :: lcounts_from (lnext s l) r end.
 
 Definition pend_of (s : state) (os : list ostep) : list (N * list N) :=
   map (fun i => (i, receivers s i)) (oimages os).
@@ -133,7 +142,7 @@ Fixpoint lin_run (ss : list state) (os : list ostep) (evss : list (list ievent))
   | [], [], [] => Some ss
   | o :: r, evs :: er, n :: cr =>
       lin_run (flat_map (fun s => flat_map (fun l =>
-                 if same_events (levents s l) evs && (recv_count (lnext s l) (ostep_img o) =? n)
+                 if same_events (levents s l) evs && (ostep_count (lnext s l) o =? n)
                  then [lnext s l] else []) (candidates o)) ss) r er cr
   | _, _, _ => None
   end.
@@ -152,6 +161,9 @@ Definition agree := lin_agree.
     that asked and were not answered. *)
 Record mstate := { mrun : N -> option N; mwait : N -> list N }.
 Definition minit : mstate := {| mrun := fun _ => None; mwait := fun _ => [] |}.
+
+Fixpoint remove_first (c : N) (l : list N) : list N :=
+  match l with [] => [] | a :: r => if a =? c then r else a :: remove_first c r end.
 
 Definition mon_step (m : mstate) (x : step) (evs : list ievent) : option mstate :=
   match x with
@@ -178,6 +190,17 @@ Definition mon_step (m : mstate) (x : step) (evs : list ievent) : option mstate 
           else None
       | None => if is_nil evs then Some m else None
       end
+  | Cancel c =>
+      (* the cancelled caller may keep waiting (it is then answered like everybody else), or return
+         early with its context's error: it is then exempt from "answered exactly once", everybody
+         else is not *)
+      match evs with
+      | [] => Some m
+      | [IGone c' i] => if (c' =? c) && existsb (N.eqb c) (mwait m i)
+                        then Some {| mrun := mrun m; mwait := set (mwait m) i (remove_first c (mwait m i)) |}
+                        else None
+      | _ => None
+      end
   end.
 
 Definition opt_list {A} (o : option A) : list A := match o with Some a => [a] | None => [] end.
@@ -187,7 +210,12 @@ Definition obind {A B} (o : option A) (f : A -> option B) : option B := match o 
     took effect after the broadcast (it must then start a fresh pull) or before it (it must then be
     answered by this very broadcast).  A request that is registered but neither answered nor followed
     by a fresh pull is accepted by neither. *)
-Definition mon_ostep (m : mstate) (o : ostep) (evs : list ievent) : list mstate :=
+(** After every [Done] the image has no in-flight entry (receiver count read under the lock is 0). *)
+Definition count_ok (o : ostep) (n : N) : bool :=
+  match o with Plain (Done _ _) => n =? 0 | _ => true end.
+
+Definition mon_ostep (m : mstate) (o : ostep) (evs : list ievent) (n : N) : list mstate :=
+  if negb (count_ok o n) then [] else
   match o with
   | Plain x => opt_list (mon_step m x evs)
   | Overlap i r c =>
@@ -197,11 +225,12 @@ Definition mon_ostep (m : mstate) (o : ostep) (evs : list ievent) : list mstate 
       opt_list (obind (mon_step m (Req c i) p) (fun m1 => mon_step m1 (Done i r) q))
   end.
 
-Fixpoint mon_run (ms : list mstate) (os : list ostep) (evss : list (list ievent)) : option (list mstate) :=
-  match os, evss with
-  | [], [] => Some ms
-  | o :: r, evs :: er => mon_run (flat_map (fun m => mon_ostep m o evs) ms) r er
-  | _, _ => None
+Fixpoint mon_run (ms : list mstate) (os : list ostep) (evss : list (list ievent)) (cnts : list N)
+  : option (list mstate) :=
+  match os, evss, cnts with
+  | [], [], [] => Some ms
+  | o :: r, evs :: er, n :: cr => mon_run (flat_map (fun m => mon_ostep m o evs n) ms) r er cr
+  | _, _, _ => None
   end.
 
 Definition mon_final (pend : list (N * list N)) (m : mstate) : bool :=
@@ -211,7 +240,7 @@ Definition mon_final (pend : list (N * list N)) (m : mstate) : bool :=
 
 Definition monitor (c : case) : bool :=
   let '(os, (evs, cnts, pend, alias)) := c in
-  match mon_run [minit] os evs with
+  match mon_run [minit] os evs cnts with
   | None => false
   | Some ms =>
       existsb (mon_final pend) ms
@@ -239,7 +268,8 @@ Ltac sim_case Hs img :=
 Lemma sim_step s m x : sim s m ->
   exists m', mon_step m x (map erase (step_events s x)) = Some m' /\ sim (do_step s x) m'.
 Proof.
-  intros Hs. destruct x as [c img|img res].
+  intros Hs. destruct x as [c img|img res|c].
+  3: { exists m. split; [reflexivity|]. intros i. unfold receivers. cbn. apply Hs. }
   - destruct (Hs img) as (Hr & Hw). unfold receivers in *. cbn [mon_step step_events do_step]. rewrite Hr.
     destruct (inflight s img) as [e|] eqn:E; cbn [option_map map erase is_nil].
     + eexists. split; [reflexivity|]. sim_case Hs img. now rewrite Hw.
@@ -273,10 +303,17 @@ Lemma kinds_req s c i :
   resps_of (map erase (step_events s (Req c i))) = [].
 Proof. cbn. destruct (inflight s i); now split. Qed.
 
-Lemma sim_lstep s m l : sim s m ->
-  exists m', In m' (mon_ostep m (forget l) (levents s l)) /\ sim (lnext s l) m'.
+Lemma count_ok_model s l : count_ok (forget l) (ostep_count (lnext s l) (forget l)) = true.
 Proof.
-  intros Hs. destruct l as [x|i r c [|]]; unfold levents, lnext; cbn [expand1 outs map concat forget mon_ostep run_from fold_left].
+  destruct l as [[c i|i r|c]|i r c b]; try reflexivity.
+  unfold lnext, ostep_count, recv_count. cbn. now rewrite set_same.
+Qed.
+
+Lemma sim_lstep s m l : sim s m ->
+  exists m', In m' (mon_ostep m (forget l) (levents s l) (ostep_count (lnext s l) (forget l))) /\ sim (lnext s l) m'.
+Proof.
+  intros Hs. unfold mon_ostep. rewrite count_ok_model. cbn [negb].
+  destruct l as [x|i r c [|]]; unfold levents, lnext; cbn [expand1 outs map concat forget run_from fold_left].
   - rewrite app_nil_r. destruct (sim_step s m x Hs) as (m' & H1 & H2). exists m'. rewrite H1. split; [now left|assumption].
   - rewrite app_nil_r, pulls_of_app, resps_of_app.
     destruct (kinds_done s i r) as [D1 D2]. destruct (kinds_req (do_step s (Done i r)) c i) as [R1 R2].
@@ -293,10 +330,10 @@ Proof.
 Qed.
 
 Lemma sim_lrun ls : forall s ms, (exists m, In m ms /\ sim s m) ->
-  exists ms', mon_run ms (map forget ls) (levs_from s ls) = Some ms' /\
+  exists ms', mon_run ms (map forget ls) (levs_from s ls) (lcounts_from s ls) = Some ms' /\
               exists m', In m' ms' /\ sim (run_from s (expand ls)) m'.
 Proof.
-  induction ls as [|l r IH]; intros s ms (m & Hin & Hs); cbn [map levs_from mon_run expand flat_map].
+  induction ls as [|l r IH]; intros s ms (m & Hin & Hs); cbn [map levs_from lcounts_from mon_run expand flat_map].
   - exists ms. split; [reflexivity|]. exists m. now split.
   - rewrite run_from_app. apply IH.
     destruct (sim_lstep s m l Hs) as (m' & Hin' & Hs'). exists m'. split; [|exact Hs'].
